@@ -279,7 +279,21 @@ def run(chk, tier, only_rule=None):
         chk.analysed(fn)
         g = C.CFG(fn['body'])
         handled = {}
+        vnames = U.enum_value_names(en)
+        def replay_calls(edge):
+            calls = set()
+            for x in G.region_of_edge(g, edge):
+                if isinstance(x.ast, dict):
+                    for c in A.calls_in(x.ast):
+                        if 'jsonpointer::' in c.get('cq', '') and A.callee_name(c) in ('add', 'remove', 'replace'): calls.add(A.callee_name(c))
+            return calls
         for nd in g.rpo:
+            if nd.kind == 'switch':
+                # switch (entry.op) { case op_type::add: ... }: one case edge per enumerator
+                for e in nd.succ:
+                    if e.kind == 'edge' and isinstance(e.label, tuple) and e.label[0] == 'case' and e.label[1] == e.label[2] and e.label[1] in vnames:
+                        handled[vnames[e.label[1]]] = replay_calls(e)
+                continue
             if nd.kind != 'cond': continue
             cmp_ = G.comparison(nd.ast)
             if not cmp_ or cmp_[0] != '==': continue
